@@ -60,6 +60,15 @@ func chainText(L int, ops, shorts uint, body string) string {
 	return strings.Join(open, "") + body + strings.Join(cl, "")
 }
 
+func isIdent(s string) bool {
+	for _, c := range s {
+		if !(c == '_' || c >= 'a' && c <= 'z' || c >= 'A' && c <= 'Z' || c >= '0' && c <= '9') {
+			return false
+		}
+	}
+	return s != ""
+}
+
 func opsName(L int, ops uint) string {
 	var s []string
 	for i := 0; i < L; i++ {
@@ -123,8 +132,8 @@ func genChains(rng *vh.Rng, maxD int, perCombo int, shortForms bool) []chainCase
 						shorts := uint(0)
 						if shortForms && rng.Chance(1, 3) {
 							shorts = uint(rng.Intn(1 << uint(L)))
-							if L < D && strings.ContainsAny(body, " ;") {
-								shorts &^= 1 << uint(L-1) // `~,w + 1` would parse as (~,w) + 1
+							if !isIdent(body) {
+								shorts &^= 1 << uint(L-1) // `~,w + 1` / `~,v.f(2)` would parse as (~,w) + 1 / (~,v).f(2)
 							}
 						}
 						ch := chainText(L, ops, shorts, body)
